@@ -157,6 +157,28 @@ def modules_determinism(chk, n, replay=None):
         shutil.rmtree(tmproot, ignore_errors=True)
 
 
+def thrown_object_program(rng):
+    """an object of a user-defined type with several properties, thrown: uncaught (the program ends with whatever the type's
+    exception says), or caught and shown.  Whatever is shown, it is the same on every run."""
+    names = rng.sample(["货号", "仓库", "缺口", "Pa", "Pb", "Pc", "备注"], rng.randrange(2, 6))
+    props = [(n, rng.choice([Str("s"), Num(rng.randrange(0, 9)), Arr([Num(1)])])) for n in names]
+    if rng.random() < 0.3:
+        props.append(("内容", Str("msg")))
+    body = [Class("库存不足", props, []),
+            Ctor("库存不足", ["Xa", "Xb"], [ExprS(AssignThis(names[0], Var("Xa"))), ExprS(AssignThis(names[1], Var("Xb")))], [])]
+    thrower = [Display(Str("before")), Throw("库存不足", [Str("SKU-7"), Num(rng.randrange(1, 9))]), Display(Str("unreachable"))]
+    how = rng.randrange(3)
+    if how == 0:
+        body += thrower
+        return ([], body, [])
+    if how == 1:
+        body.append(Func("Fz", [], thrower, []))
+        body.append(Display(Call("Fz", [])))
+        return ([], body, [])
+    body += thrower
+    return ([], body, [("库存不足", [Display(Str("caught"), Member(Var("其"), names[0]) if False else ThisProp(names[0])), Return(ThisProp(names[1]))])])
+
+
 def run(chk, replay=None):
     if replay is not None and replay.get("kind") == "modules":
         modules_determinism(chk, 0, replay)
@@ -168,10 +190,24 @@ def run(chk, replay=None):
         return
     json_determinism(chk, 40 if chk.tier == "quick" else 600) if replay is None else None
     extra = dict_cases(chk.rng) if replay is None else []
+    if replay is None:
+        extra += [(thrown_object_program(chk.rng), None, "thrown-object") for _ in range(25 if chk.tier == "quick" else 300)]
     semprop.run_property(chk, "C11", "c11", PROFILES, 90, 900, replay=replay, extra_programs=extra, repeat=6,
                          what="outcome depends on something other than program and inputs")
     inventory(chk)
 
+
+# digests (maprange tool: the loop as written, comments excluded) of the loops the reasons below were given for
+ALLOWED_DIGESTS = {
+    "pkg/runtime/module.go:checkCircularDepedencyDFS": ["61558cf12db64c61"],
+    "pkg/runtime/verif_access.go:VerifScopeInfo": ["fc2517e0293b75aa"],
+    "pkg/runtime/vm.go:OwnsType": ["450ee5f2af99313a"],
+    "pkg/value/object.go:NewObject": ["2f9206f852b83b37"],
+    "pkg/value/value_util.go:containsElement": ["50c036d155a2f8fb"],
+    "pkg/common/elem2json.go:buildElementFromPlainValue": ["69baa0769225db34"],
+    "pkg/exec/eval.go:evalImportStmt": ["aa21d45046f5e7a6", "299fa524eb5d7e26"],
+    "pkg/exec/exec_varinput.go:ExecExpressionInputText": ["a753d88740bb44a0"],
+}
 
 ALLOWED_SITES = {
     # file:function -> why the iteration order is not observable
@@ -220,6 +256,12 @@ def inventory(chk):
         key = "%s:%s" % (s["file"], s["func"])
         wild = "%s:*" % s["file"]
         chk.count(["maprange", key])
+        if key in ALLOWED_DIGESTS and s.get("digest") not in ALLOWED_DIGESTS[key]:
+            # the reason recorded for this loop is a statement about what the loop does: the loop has been rewritten
+            chk.violation("the range over a Go map in %s (line %d, over %s) is not the loop whose iteration order was shown to be "
+                          "unobservable (%s): it was rewritten and must be examined again" % (key, s["line"], s["expr"], ALLOWED_SITES.get(key, "")[:120]),
+                          "c11:maprange-changed:" + key, {"kind": "maprange", "site": s, "known_digests": ALLOWED_DIGESTS[key]}, no_input=True)
+            continue
         if key not in ALLOWED_SITES and wild not in ALLOWED_SITES:
             chk.violation("a range over a Go map whose iteration order is not shown to be unobservable: %s line %d (%s)" % (key, s["line"], s["expr"]),
                           "c11:maprange:" + key, {"kind": "maprange", "site": s}, no_input=True)
